@@ -133,6 +133,7 @@ impl Property for P {
                         symlink: false,
                         bg_cleanup: false,
                         via_logger,
+                        build_variant: 0,
                     })
                     .collect();
                 let nf = families.len();
